@@ -198,6 +198,8 @@ func init() {
 			c.Cov.Bound["deep.Nmax"] = deep.Nmax
 			c.Cov.Bound["deep.undo_budget"] = 1
 			BFS(c, deep, 0)
+		}
+		if !c.Expired() {
 			tallFamily(c, "C06")
 		}
 	}
